@@ -2,7 +2,7 @@
 at run time on the real IdealReservoir / SinglePhaseReservoir (tests/data/pvt_gas.csv).
 
 Tolerances: shift 1e-9 absolute on the scaled pseudopressure field and on recovery (both O(1); measured on the
-clean code: <= 3e-11 for |shift| <= 1000); constant schedule / length / before_simulate exact; interpolator
+clean code: <= 1.6e-11 at shift 1000, <= 7e-14 for the other shifts); constant schedule / length / before_simulate exact; interpolator
 at the nodes 1e-12 absolute, fill values exact."""
 from __future__ import annotations
 
@@ -17,6 +17,10 @@ RENAME = {"P": "pressure", "Z-Factor": "z-factor", "Cg": "compressibility", "Vis
 SHIFTS = (1e-3, 1.0, 1000.0, -0.5)
 TOL_SHIFT = 1e-9
 TOL_NODES = 1e-12
+# The clause as stated demands only that a rejected schedule leaves no new `pseudopressure`.  The real code assigns
+# self.time (and drops the recovery cache) BEFORE the length check, so a rejected call on an already simulated object
+# leaves the new time axis next to the old field; that is recorded in `observed` and only enforced when this is True.
+STRICT_LENGTH_FRAME = False
 _cache = {}
 
 
@@ -106,9 +110,11 @@ def check_length(cfg):
     if cfg["form"] == "list":
         sched = sched.tolist()
     r = make(cfg)
-    prior = None
+    prior = prior_time = None
     if cfg.get("after_previous"):
-        r.simulate(t.copy())
+        prior_time = make_grid({**cfg["grid"], "t_end": cfg["grid"]["t_end"] * 0.5})
+        r.simulate(prior_time.copy())
+        r.recovery_factor()
         prior = r.pseudopressure.copy()
     try:
         r.simulate(t.copy(), sched)
@@ -119,9 +125,12 @@ def check_length(cfg):
         raised = type(e).__name__
     if prior is None:
         untouched = not hasattr(r, "pseudopressure")
+        frame = not hasattr(r, "time") and not hasattr(r, "recovery")
     else:
         untouched = hasattr(r, "pseudopressure") and np.array_equal(r.pseudopressure, prior)
-    return raised == "ValueError" and untouched, {"raised": raised, "pseudopressure untouched": bool(untouched)}
+        frame = hasattr(r, "time") and np.array_equal(r.time, prior_time) and hasattr(r, "recovery")
+    ok = raised == "ValueError" and untouched and (frame or not STRICT_LENGTH_FRAME)
+    return ok, {"raised": raised, "pseudopressure untouched": bool(untouched), "time and recovery cache untouched (informative unless STRICT_LENGTH_FRAME)": bool(frame)}
 
 
 def check_before(cfg):
